@@ -131,15 +131,30 @@ def main():
             chk.violation(key, desc, replay, found)
 
     batches = 1 if not chk.thorough else 10
-    for b in range(batches):
-        cases = G.generate(chk, ncases // batches, nq, depth_max=6 if not chk.thorough else 12)
-        for c in cases:
-            c.idx += b * 100000
+    plan = [(b, exe, False) for b in range(batches)]
+    # "every sample below gd_eof is readable" also on ONE handle after the tail of the field was read: the read
+    # histories of checks/C01.py (tail, sample 0, small start, middle, random start) over fields larger than the
+    # decoders' windows, every encoding, on a library built with hook H1 (64-byte raw/bzip2/lzma buffers)
+    try:
+        impl_s = vlib.build_impl("", G.SMALL_BUFFERS)
+        plan.append((batches, vlib.build_harness(impl_s, os.path.join(vlib.VERIF, "harness/C01/rd.c")), True))
+    except vlib.BuildError as e:
+        chk.violation("build", "small-buffer build failed: " + str(e)[:1500], {"kind": "build", "log": str(e)}, found=False)
+    for (b, bexe, big) in plan:
+        if big:
+            cases = G.generate(chk, 96 if not chk.thorough else 800, 6, simple_frac=0.5, depth_max=1, big=True)
+            for c in cases:
+                c.idx += 500000
+            q0 = st["queries"]
+        else:
+            cases = G.generate(chk, ncases // batches, nq, depth_max=6 if not chk.thorough else 12)
+            for c in cases:
+                c.idx += b * 100000
         if b == 0:
             cases += witness_cases(chk.rng)
         broot = os.path.join(root, "b%d" % b)
         os.makedirs(broot)
-        problems = G.run_cases(cases, exe, drv, broot, jobs=vlib.NPROC, want_extents=True)
+        problems = G.run_cases(cases, bexe, drv, broot, jobs=vlib.NPROC, want_extents=True)
         for p in problems[:3]:
             chk.violation("harness", p, {"kind": "harness", "detail": p}, found=False)
         for c in cases:
@@ -194,7 +209,7 @@ def main():
                                  "gd_bof(%s) = %d but the first sample computed from real data only is %d\n%s" % (
                                      f[0], ei["bof"], em["first_real"], c.format_text()), base)
             # --- the property: count = min(n, max(0, gd_eof - s)) on the implementation itself
-            for (q, im, model, spec, tags) in c.res:
+            for qi, (q, im, model, spec, tags) in enumerate(c.res):
                 if q[0] not in ext:
                     continue
                 ei, em = ext[q[0]]
@@ -215,6 +230,8 @@ def main():
                       "gd_eof": e, "returned": got, "error": im["err"], "expected": want, "uncovered_clauses": tags, "noclamp": em["noclamp"],
                       "data_files": {k: v.hex() for k, v in c.files.items() if not k.endswith("format") and not k.endswith(".txt")},
                       "tables": {k: v.decode() for k, v in c.files.items() if k.endswith(".txt")},
+                      "earlier_calls_on_the_handle": [r[0] for r in c.res[:qi]],
+                      "library_build": G.SMALL_BUFFERS if big else "default",
                       "how": "printf 'O <dir>\\nE %s\\nG %s %d %d %d\\n' | harness/C01/rd" % (q[0], q[0], q[1], s, n)}
                 if q[0] in getattr(c, "scalar_phase", set()) and e != (em["eof"] if em["eof"] is not None else -12):
                     key = K_STALE       # the gd_eof used here is itself the stale one
@@ -226,8 +243,10 @@ def main():
                     key = "extents/count-vs-eof/unexpected/" + ",".join(tags)
                 else:
                     key = "extents/count-vs-eof/covered-region"
-                viol(key, "gd_getdata(%s, first_sample=%d, n=%d) returns %s samples (error %d) but gd_eof = %d, so min(n, max(0, eof - s)) = %d (clauses: %s)\n%s" % (
-                    q[0], s, n, "a crash instead of" if got < 0 else got, im["err"], e, want, ",".join(tags), c.format_text()), rp)
+                viol(key, "gd_getdata(%s, first_sample=%d, n=%d) returns %s samples (error %d) but gd_eof = %d, so min(n, max(0, eof - s)) = %d (clauses: %s)%s\n%s" % (
+                    q[0], s, n, "a crash instead of" if got < 0 else got, im["err"], e, want, ",".join(tags),
+                    "; earlier calls on the handle: %s" % ["gd_getdata(%s, %d, %d)" % (r[0][0], r[0][2], r[0][3]) for r in c.res[:qi]][-4:] if big else "",
+                    c.format_text()), rp)
             # --- gd_nframes
             li = c.nfr[0].split()
             if len(li) == 2 and li[0] == "N" and c.raws:
@@ -249,6 +268,8 @@ def main():
                     if q[0] in ext and ext[q[0]][0]["eof"] == 8 and im["count"] == 2 and ext[q[0]][0]["bof"] == 8:
                         chk.known_confirm(K_CLAMP, "witness 900102 reproduced")
                         chk.known_confirm(K_BOFPHASE, "witness 900102 reproduced")
+        if big:
+            st["history_queries_small_buffers"] = st["queries"] - q0
         shutil.rmtree(broot, ignore_errors=True)
 
     # --- direct probe: the imaginary part of a real field
